@@ -5,7 +5,9 @@ ratio alphabet to a 5-line window with a unique maximum, at every window positio
 bases, Hermitian and half-spectrum) x every selected frequency (grid lines and mid-points) x three band
 half-widths, through the real `fdd.SD_svalsvec` -> `fdd.FDD_mpe`; oracle from my own SVD of the matrix.
 End to end: FDD / FDD_MS / EFDD / FSDD / EFDD_MS through the setup classes on payload records, oracle
-recomputed from `result.Sy`.
+recomputed from `result.Sy`; every band is requested through both documented entry points of the extraction,
+`mpe(sel_freq, DF..)` and the interactive `mpe_from_plot(freqlim, DF..)` (the Tk dialog replaced by a stand-in that
+hands over the picked grid lines; the dialog itself is property C16), in three call forms, and with DF omitted.
 """
 import itertools
 
@@ -19,7 +21,7 @@ ID = "C06"
 TECHNIQUE = ("bounded-exhaustive enumeration of designed spectral-matrix sequences (all ratio profiles over a small "
              "alphabet x all window positions x all selected lines/mid-points x band widths) through the real "
              "SD_svalsvec/FDD_mpe, judged against an independent SVD; plus the full (record x algorithm x segment "
-             "length x selection x band) lattice through the setup classes")
+             "length x selection x band x entry point {mpe, mpe_from_plot} x call form) lattice through the setup classes")
 LEVEL_TEXT = ("every element of the stated finite lattice is executed on the real code and judged; real-valued content "
               "comes from the payload alphabet of the seed")
 RULE = ("a case is one peak-picking request: (spectral sequence, band half-width, selected frequency); distinct by "
@@ -33,6 +35,10 @@ ASSUMPTIONS = [
     "or outermost line inside, upper limit inclusive or exclusive; the returned line must be the ratio maximum of one of them",
     "ratio ties (within 1e-8 relative) accept any of the tied lines; shapes are judged where sigma1/sigma2 >= 1.1",
     "designed sequences keep sigma1/sigma_n <= 1e6 so that the reference SVD resolves every ratio to 1e-9",
+    "mpe_from_plot route: the name SelFromPlot of pyoma2.algorithms.fdd is replaced by a stand-in that returns what the "
+    "real dialog can return for the 'FDD' plot (an ascending list of grid lines as numpy floats, None); which lines a click "
+    "history yields is property C16, not judged here. The band judged is the DF (DF1) handed to mpe_from_plot, or the "
+    "documented default 0.1 Hz when DF is omitted (only on grids whose line spacing FS/nxseg is at most 0.1 Hz)",
 ]
 
 ALPHA = (1.5, 3.0, 10.0, 30.0, 100.0)
@@ -334,6 +340,70 @@ def split2(Y):
     return [Y[:, refs + a].copy(), Y[:, refs + b].copy()], [list(range(nref)), list(range(nref))]
 
 
+ROUTES = ("mpe", "mpe_from_plot")          # the two documented entry points of the extraction
+FORMS = ("setup method, keywords, freqlim given", "setup method, positional", "algorithm object, keywords")
+DF_DEFAULT = 0.1                            # documented default of DF / DF1 [Hz], used when the argument is omitted
+
+
+class _Dialog:
+    """Stand-in for the Tk dialog behind `mpe_from_plot` (installed as `pyoma2.algorithms.fdd.SelFromPlot`): it hands over
+    what the real dialog can hand over for the 'FDD' plot - an ascending list of grid lines (numpy floats) and None."""
+    picks = ()
+    calls = []
+
+    def __init__(self, algo, freqlim=None, plot="FDD"):
+        _Dialog.calls.append((algo, freqlim, plot))
+        self.result = ([np.float64(x) for x in sorted(_Dialog.picks)], None)
+
+
+def extract(ss, a, route, form, first_stage, sels, DF, DF2):
+    """One extraction request on the real code. DF None = argument(s) omitted. The mpe route keeps the call form it
+    always had in this check; the mpe_from_plot route takes the call form `form`. Returns how often the dialog was opened."""
+    if route == "mpe":
+        if DF is None:
+            ss.mpe("a", sel_freq=list(sels))
+        elif first_stage:
+            ss.mpe("a", sel_freq=list(sels), DF1=DF, DF2=DF2)
+        else:
+            ss.mpe("a", sel_freq=list(sels), DF=DF)
+        return None
+    import pyoma2.algorithms.fdd as AF
+
+    lim = (0.0, FS / 2)
+    keep = AF.SelFromPlot
+    _Dialog.picks = tuple(sels)
+    _Dialog.calls = []
+    AF.SelFromPlot = _Dialog
+    try:
+        if DF is None:
+            if form == 0:
+                ss.mpe_from_plot("a", freqlim=lim)
+            elif form == 1:
+                ss.mpe_from_plot("a")
+            else:
+                a.mpe_from_plot()
+        elif first_stage:               # EFDD.mpe_from_plot(DF1, DF2, cm, MAClim, sppk, npmax, freqlim)
+            if form == 0:
+                ss.mpe_from_plot("a", DF1=DF, DF2=DF2, freqlim=lim)
+            elif form == 1:
+                ss.mpe_from_plot("a", DF, DF2)
+            else:
+                a.mpe_from_plot(DF1=DF, DF2=DF2)
+        else:                           # FDD.mpe_from_plot(freqlim, DF)
+            if form == 0:
+                ss.mpe_from_plot("a", freqlim=lim, DF=DF)
+            elif form == 1:
+                ss.mpe_from_plot("a", None, DF)
+            else:
+                a.mpe_from_plot(DF=DF)
+    finally:
+        AF.SelFromPlot = keep
+    if any(c[0] is not a or c[2] != "FDD" for c in _Dialog.calls):
+        raise RuntimeError(f"harness: the dialog stand-in was consulted for another algorithm or plot: "
+                           f"{[(type(c[0]).__name__, c[1], c[2]) for c in _Dialog.calls]}")
+    return len(_Dialog.calls)
+
+
 def e2e_item(item):
     seed, kind, nch, alg, msd, nxseg = item
     t = Tally()
@@ -341,7 +411,7 @@ def e2e_item(item):
     return t
 
 
-def judge_e2e(t, seed, kind, nch, alg, msd, nxseg, only=None):
+def judge_e2e(t, seed, kind, nch, alg, msd, nxseg, only=None, only_route=None):
     from pyoma2 import algorithms as A
     from pyoma2.setup import MultiSetup_PreGER, SingleSetup
 
@@ -379,61 +449,92 @@ def judge_e2e(t, seed, kind, nch, alg, msd, nxseg, only=None):
     if first_stage:
         f_true, _, _ = H.system(seed, nch)
         sels = np.array(f_true) * FS
+        # the dialog hands over grid lines: the lines nearest to the true frequencies
+        picks = np.unique([freq[int(np.argmin(np.abs(freq - x)))] for x in sels])
     else:
         step = max(1, Nf // 64)
         sels = np.concatenate([freq[::step], freq[:-1:step] + df / 2])
+        # the dialog hands over grid lines: every (Nf//64)-th line and the lines half-way between them
+        picks = np.unique(np.concatenate([freq[::step], freq[step // 2::step]]))
+    sel_of = {"mpe": sels, "mpe_from_plot": picks}
     combos = [(dfi, d, 1.5) for dfi, d in enumerate(DFS)]
     if first_stage:
         # the first-stage band is DF1 whatever DF2 is: also with the (unusual but legal) DF2 < DF1
         combos.append((len(DFS), DFS[-1], 0.6 * DFS[-1] * df))
+    if DF_DEFAULT >= (FS / nxseg) * (1 - 1e-9):
+        # DF (DF1, DF2) omitted: the documented default band of 0.1 Hz, where that is at least one line spacing
+        combos.append((len(DFS) + 1, None, None))
+    rot = nch + nxseg // 256 + (msd == "cor")             # call-form rotation of the mpe_from_plot route
+    picked = {}                                           # (route, selection) -> dominant lines over the requested DFs
     for dfi, d, DF2 in combos:
         if only is not None and dfi != only:
             continue
-        case = dict(case0, dfi=dfi)
-        DF = d * df
-        try:
-            t.evaluations += 1
-            if first_stage:
-                ss.mpe("a", sel_freq=list(sels), DF1=DF, DF2=DF2)
-                if DF2 < DF:
-                    t.outcomes["e2e first stage with DF2 < DF1"] += 1
-            else:
-                ss.mpe("a", sel_freq=list(sels), DF=DF)
-            Fn = np.asarray(a.result.Fn, float).ravel()
-            Phi = np.asarray(a.result.Phi)
-            if Fn.shape != (len(sels),) or Phi.shape != (Sy.shape[0], len(sels)):
-                raise ValueError(f"Fn{Fn.shape} Phi{Phi.shape}")
-        except Exception as e:
-            import traceback
+        DF = DF_DEFAULT if d is None else d * df
+        dtxt = "DF omitted" if d is None else f"DF={d} lines"
+        for route in ROUTES:
+            if only_route is not None and route != only_route:
+                continue
+            via = route == "mpe_from_plot"
+            form = (dfi + rot) % len(FORMS)
+            wh = where + (":from-plot" if via else "")
+            case = dict(case0, dfi=dfi, route=route)
+            rsels = sel_of[route]
+            try:
+                t.evaluations += 1
+                ncalls = extract(ss, a, route, form, first_stage, rsels, None if d is None else DF, DF2)
+                if via and ncalls != 1:
+                    t.outcomes[f"e2e mpe_from_plot consulted the dialog {ncalls} times"] += 1
+                if first_stage and DF2 is not None and DF2 < DF:
+                    t.outcomes["e2e first stage with DF2 < DF1" + (" via mpe_from_plot" if via else "")] += 1
+                Fn = np.asarray(a.result.Fn, float).ravel()
+                Phi = np.asarray(a.result.Phi)
+                if Fn.shape != (len(rsels),) or Phi.shape != (Sy.shape[0], len(rsels)):
+                    raise ValueError(f"Fn{Fn.shape} Phi{Phi.shape}")
+            except Exception as e:
+                import traceback
 
-            frames = [fr.name for fr in traceback.extract_tb(e.__traceback__)]
-            if first_stage and "EFDD_mpe" in frames and "FDD_mpe" not in frames and "SD_svalsvec" not in frames:
-                # the damping fit of the second stage may legitimately fail on a record; the first stage is then unobservable
-                t.not_judged += len(sels)
-                t.outcomes[f"second stage raised {type(e).__name__} (first stage not observable)"] += 1
+                if isinstance(e, RuntimeError) and str(e).startswith("harness:"):
+                    raise
+                frames = [fr.name for fr in traceback.extract_tb(e.__traceback__)]
+                if first_stage and "EFDD_mpe" in frames and "FDD_mpe" not in frames and "SD_svalsvec" not in frames:
+                    # the damping fit of the second stage may legitimately fail on a record; the first stage is then unobservable
+                    t.not_judged += len(rsels)
+                    t.outcomes[f"second stage raised {type(e).__name__} (first stage not observable)"] += 1
+                    continue
+                t.violation(f"raises:{type(e).__name__}:{alg}.{route}", f"{e!r} ({dtxt})", case)
                 continue
-            t.violation(f"raises:{type(e).__name__}:{alg}.mpe", f"{e!r} (DF={d} lines)", case)
-            continue
-        nt = 0
-        for si, sel in enumerate(sels):
-            cands = H.band_candidates(freq, sel, DF)
-            t.transitions += 1
-            idx = judge_pick(t, freq, r, u1, sel, cands, Fn[si], Phi[:, si], case, where, judge_line=not first_stage)
-            if idx is None:
-                continue
-            lo = min(c[0] for c in cands)
-            hi = max(c[1] for c in cands)
-            seg = r[lo:hi + 1]
-            if seg.max() > seg.min() * 1.001 and lo + int(np.argmax(seg)) != int(np.argmin(np.abs(freq - sel))):
-                nt += 1
-            if idx != lo + int(np.argmax(s[lo:hi + 1, 0])):
-                t.outcomes["largest ratio is not the largest sigma1 in the band"] += 1
-            if lo == 0 or hi == Nf - 1:
-                t.outcomes["band clipped by a grid end"] += 1
-        t.outcomes[f"e2e {alg} judged"] += 1
-        if nt:
-            t.nontrivial.add(("e2e", kind, nch, alg, msd, nxseg, dfi))
-            t.extra["nontrivial_selections"] = t.extra.get("nontrivial_selections", 0) + nt
+            nt = 0
+            for si, sel in enumerate(rsels):
+                cands = H.band_candidates(freq, sel, DF)
+                t.transitions += 1
+                idx = judge_pick(t, freq, r, u1, sel, cands, Fn[si], Phi[:, si], case, wh, judge_line=not first_stage)
+                if idx is None:
+                    continue
+                picked.setdefault((route, si), set()).add(idx)
+                lo = min(c[0] for c in cands)
+                hi = max(c[1] for c in cands)
+                seg = r[lo:hi + 1]
+                if seg.max() > seg.min() * 1.001 and lo + int(np.argmax(seg)) != int(np.argmin(np.abs(freq - sel))):
+                    nt += 1
+                if idx != lo + int(np.argmax(s[lo:hi + 1, 0])):
+                    t.outcomes["largest ratio is not the largest sigma1 in the band"] += 1
+                if lo == 0 or hi == Nf - 1:
+                    t.outcomes["band clipped by a grid end"] += 1
+            if via:
+                t.outcomes[f"e2e {alg} judged via mpe_from_plot"] += 1
+                t.outcomes[f"e2e mpe_from_plot call form: {FORMS[form]}"] += 1
+            else:
+                t.outcomes[f"e2e {alg} judged"] += 1
+            if d is None:
+                t.outcomes[f"e2e DF omitted (default {DF_DEFAULT} Hz) via {route}"] += 1
+            if nt:
+                t.nontrivial.add(("e2e", kind, nch, alg, msd, nxseg, dfi) + (("mpe_from_plot",) if via else ()))
+                t.extra["nontrivial_selections"] = t.extra.get("nontrivial_selections", 0) + nt
+    for route in ROUTES:
+        # selections whose dominant line is not the same for all requested band widths: there the DF argument decides the answer
+        n = sum(1 for (ro, _), v in picked.items() if ro == route and len(v) > 1)
+        if n:
+            t.outcomes[f"e2e {route}: the dominant line depends on the requested DF"] += n
     # the stored decomposition must still be a faithful decomposition AFTER the extractions (an extraction must not write into it)
     try:
         res2 = a.result
@@ -498,6 +599,16 @@ def lattice(ctx):
         "method_SD": ["per", "cor"], "nxseg": nxs, "nxseg (EFDD family)": [1024, 2048] if th else [1024],
         "selected frequencies": "FDD: every (Nf//64)-th line and the following mid-point; EFDD family: the three true frequencies",
         "DF (line spacings)": list(DFS),
+        "DF omitted": f"the default {DF_DEFAULT} Hz, on the grids with FS/nxseg <= {DF_DEFAULT} Hz (nxseg >= 512), both entry points",
+        "entry points": list(ROUTES),
+        "mpe_from_plot": {
+            "classes": ["FDD", "FDD_MS (inherits FDD's method)", "EFDD", "FSDD", "EFDD_MS (EFDD's method: DF1, DF2 first)"],
+            "dialog": "stand-in for pyoma2.algorithms.fdd.SelFromPlot returning an ascending list of grid lines",
+            "picked lines": "FDD: every (Nf//64)-th line and the lines half-way between them; EFDD family: the lines nearest "
+                            "to the three true frequencies",
+            "DF": "every DF / (DF1, DF2) of the mpe route, and omitted",
+            "call forms": list(FORMS), "call form of a request": "(DF index + nch + nxseg//256 + [method_SD == cor]) mod 3",
+        },
     }
     return fn, e2e
 
@@ -512,7 +623,12 @@ def explore(ctx):
                             "spectral matrices and the singular values themselves for others", {"level": "summary"})
     ctx.require("band clipped by a grid end", "largest ratio is not the largest sigma1 in the band",
                 "band limit falls on a mid-point (tie admitted)", "e2e FDD judged", "e2e FDD_MS judged",
-                "e2e EFDD judged", "e2e FSDD judged", "e2e EFDD_MS judged", "e2e first stage with DF2 < DF1")
+                "e2e EFDD judged", "e2e FSDD judged", "e2e EFDD_MS judged", "e2e first stage with DF2 < DF1",
+                *[f"e2e {alg} judged via mpe_from_plot" for alg in ("FDD", "FDD_MS", "EFDD", "FSDD", "EFDD_MS")],
+                *[f"e2e mpe_from_plot call form: {f}" for f in FORMS],
+                "e2e first stage with DF2 < DF1 via mpe_from_plot",
+                *[f"e2e DF omitted (default {DF_DEFAULT} Hz) via {ro}" for ro in ROUTES],
+                *[f"e2e {ro}: the dominant line depends on the requested DF" for ro in ROUTES])
 
 
 def replay(case):
@@ -520,5 +636,6 @@ def replay(case):
     if case.get("level") == "function":
         run_sequence(t, case["seed"], case["n"], case["fam"], case["Nf"], case["off"], case["profile"], 0, only=case.get("dfi"), slow=True)
     elif case.get("level") == "e2e":
-        judge_e2e(t, case["seed"], case["kind"], case["nch"], case["alg"], case["method_SD"], case["nxseg"], only=case.get("dfi"))
+        judge_e2e(t, case["seed"], case["kind"], case["nch"], case["alg"], case["method_SD"], case["nxseg"], only=case.get("dfi"),
+                  only_route=case.get("route"))
     return t
